@@ -51,11 +51,11 @@ PROFILES = {
     "C04": dict(need_limit=True),
     "C05": dict(need_mem=True),
     "C06": dict(need_ttl=True),
-    "C07": dict(policies=["fifo", "lru"], need_pressure=True),
-    "C08": dict(policies=["lfu", "arc", "tlru"], need_pressure=True),
+    "C07": dict(policies=["fifo", "lru"], need_pressure=True, streaks=True, scenarios=True),
+    "C08": dict(policies=["lfu", "arc", "tlru"], need_pressure=True, extra_ttl=[6, 10, 6], streaks=True, scenarios=True),
     "C15": dict(),
     "C16": dict(),
-    "ALL": dict(),
+    "ALL": dict(extra_ttl=[6], streaks=True),
 }
 
 
@@ -64,7 +64,7 @@ def gen_cfg(r, prof):
     pol = r.pick(pols)
     fl = r.pick(FLAVOURS)
     limit = r.pick([None, 1, 2, 3, 4])
-    ttl = r.pick([None, None, 1, 2, 3])
+    ttl = r.pick([None, None, 1, 2, 3] + prof.get("extra_ttl", []))
     mem = r.pick([None, None] + MEMS)
     if prof.get("need_limit") and limit is None:
         limit = 1 + r.below(4)
@@ -81,7 +81,36 @@ def gen_cfg(r, prof):
     return dict(fl=fl, pol=pol, limit=limit, ttl=ttl, mem=mem, fw=fw)
 
 
-def gen_history(r, cfg, nops, mixed=False):
+def gen_scenario(r, cfg):
+    """score races for LFU/ARC/TLRU: fill the cache with entries of chosen popularity and age,
+    revisit some of them, then overflow; repeat"""
+    cap = cfg["limit"] if cfg["limit"] is not None else 3
+    ttl = cfg["ttl"]
+    is_async = cfg["fl"] == "a"
+    ops, v = [], 0
+    nextkey = 0
+    steps = [0, 0, 1000, 1000, 2000] + ([max(1, ttl // 2) * 1000, (ttl - 1) * 1000] if ttl else [])
+    if not is_async:
+        steps += [250, 500]
+    live = []
+    for rnd in range(2 + r.below(3)):
+        for _ in range(cap + r.below(2)):
+            v += 1
+            k = nextkey % (cap + 3)
+            nextkey += 1
+            sz = r.pick(SIZES[:4])
+            ops.append((r.pick(steps), "insm" if cfg["mem"] is not None else "ins", [k, v, sz]))
+            live.append(k)
+            for _ in range(r.pick([0, 0, 1, 2, 3, 5, 6])):
+                ops.append((0, "get", [k]))
+            if live and r.chance(1, 2):
+                k2 = r.pick(live[-(cap + 1):])
+                for _ in range(1 + r.below(3)):
+                    ops.append((r.pick([0, 0, 1000]), "get", [k2]))
+    return ops
+
+
+def gen_history(r, cfg, nops, mixed=False, streaks=False):
     cap = cfg["limit"] if cfg["limit"] is not None else 3
     alphabet = cap + 2
     ops = []
@@ -94,13 +123,18 @@ def gen_history(r, cfg, nops, mixed=False):
         if ttl is not None:
             x = r.below(10)
             if is_async:
-                dt = [0, 0, 0, 0, 0, 1000, 1000, 1000, 2000, ttl * 1000][x]
+                dt = [0, 0, 0, 0, 0, 1000, 1000, max(1, ttl // 2) * 1000, 2000, ttl * 1000][x]
             else:
-                dt = [0, 0, 0, 0, 250, 500, 750, 1000, 1000, ttl * 1000][x]
+                dt = [0, 0, 0, 0, 250, 500, 750, 1000, max(1, ttl // 2) * 1000, ttl * 1000][x]
         elif r.chance(1, 10):
             dt = 1000
         k = r.below(alphabet)
         x = r.below(100)
+        if streaks and x < 8 and ops:
+            # a hot key: several lookups in a row (popularity matters to LFU/ARC/TLRU)
+            for j in range(2 + r.below(5)):
+                ops.append((dt if j == 0 else 0, "get", [k]))
+            continue
         if x < 45:
             ops.append((dt, "get", [k]))
         elif x < 97 or cfg["fl"] != "g":
@@ -138,7 +172,10 @@ def main():
         for i in range(a.count):
             cfg = gen_cfg(r, prof)
             nops = a.nops // 2 + r.below(a.nops)
-            ops = gen_history(r, cfg, nops, mixed=a.prop in ("C16",))
+            if prof.get("scenarios") and r.chance(1, 2):
+                ops = gen_scenario(r, cfg)
+            else:
+                ops = gen_history(r, cfg, nops, mixed=a.prop in ("C16",), streaks=prof.get("streaks", False))
             seed = r.below(1 << 31)
             fwn, fwd = cfg["fw"] if cfg["fw"] else (None, None)
             head = "CASE %s-%d-%d %s %s %s %s %s %s %s %d" % (
@@ -154,7 +191,26 @@ def main():
             hist_cfg[key] = hist_cfg.get(key, 0) + 1
             if i < 2:
                 samples.append(dict(case=head, ops=["%d %s %s" % (dt, n, " ".join(map(str, ar))) for dt, n, ar in ops]))
-    json.dump(dict(cases=a.count, ops=hist_ops, configs=hist_cfg, samples=samples), sys.stdout)
+    rt = 0
+    if a.prop == "C06":
+        # real-time cases on the async engine: the whole-second clock with real sub-second phases
+        with open(a.out, "a") as f:
+            n_rt = 6 if a.count < 5000 else 18
+            for i in range(n_rt):
+                T = 1 + (i % 2)
+                phase = [150, 500, 850][i % 3]
+                pol = r.pick(POLICIES)
+                f.write("RTCASE C06-rt-%d-%d a %s %s %d - - - %d\n" % (a.seed, i, pol, r.pick(["-", "2", "3"]), T, r.below(1 << 31)))
+                f.write("O %d ins 0 1 28\n" % phase)
+                if T == 2 and i % 4 < 2:
+                    f.write("O %d get 0\n" % 400)            # age 0.4 s < T-1: must be served
+                    f.write("O %d get 0\n" % (T * 1000 - 400 + 250))   # age T + 0.25 s: must be expired
+                else:
+                    f.write("O %d get 0\n" % (T * 1000 + 250))
+                f.write("O 0 get 0\n")
+                f.write("END\n")
+                rt += 1
+    json.dump(dict(cases=a.count + rt, realtime_cases=rt, ops=hist_ops, configs=hist_cfg, samples=samples), sys.stdout)
 
 
 if __name__ == "__main__":
